@@ -115,7 +115,7 @@ def _w_c0910(task):
                     continue
                 bi = callmc.bind_by_inspect(ref, a if form in ('boundmethod',) or form.startswith('partial') else args, kw)
                 if bi is None:
-                    raise SystemExit('harness: inspect.signature and the interpreter disagree on %s %r %r' % (sigtext, a, kw))
+                    raise RuntimeError('harness: inspect.signature and the interpreter disagree on %s %r %r' % (sigtext, a, kw))
                 res['counts']['evaluations'] += 1
                 try:
                     key = W.key(*args, **dict(kw))
